@@ -247,6 +247,38 @@ def _concurrency(nshards):
     return max(1, min(nshards, os.cpu_count() or 1, by_mem))
 
 
+def _optimized_pass(prop, tier, merged):
+    """The same check once more in a child interpreter started with -O (assert statements stripped), on a third of the budget
+    (a tenth in the thorough tier): a library whose behaviour hangs on an `assert` doing real work breaks for users who run
+    optimised byte code.  Returns the VIOLATION lines of the child ([] if none), or None on a harness error of the child."""
+    import subprocess
+    scale = '0.34' if tier == 'quick' else '0.1'
+    env = dict(os.environ, IXV_NO_EVIDENCE='1', IXV_BUDGET=scale, PYTHONHASHSEED='0')
+    env.pop('PYTHONOPTIMIZE', None)
+    here = os.path.dirname(os.path.dirname(os.path.abspath(__file__)))
+    p = subprocess.run([sys.executable, '-O', '-m', 'ixv.run', prop, '--tier', tier], cwd=here, env=env, capture_output=True, text=True)
+    out = [l for l in p.stdout.splitlines() if l.strip()]
+    summary = next((l for l in out if l.startswith(f'{prop} tier=')), '')
+    info = {'interpreter': 'python -O', 'budget_scale': float(scale), 'exit': p.returncode}
+    for tok in summary.split():
+        if tok.startswith(('evaluations=', 'distinct_nontrivial=', 'violations=')):
+            k, v = tok.split('=')
+            info[k] = int(v)
+    merged['extra']['optimized_interpreter_pass'] = info
+    if p.returncode == 0:
+        return []
+    if p.returncode == 1:
+        lines = []
+        for i, l in enumerate(out):
+            if l.startswith('VIOLATION '):
+                if i and out[i - 1].startswith('  '):
+                    lines.append('  [python -O] ' + out[i - 1].strip())
+                lines.append(l)
+        return lines or [f'VIOLATION property={prop} replay=(child run under python -O exited 1 without a replay file)']
+    print("HARNESS-ERROR the pass under python -O failed\n" + "\n".join(out[-15:]) + p.stderr[-1500:])
+    return None
+
+
 def main():
     _bootstrap()
     ap = argparse.ArgumentParser()
@@ -271,6 +303,9 @@ def main():
     if a.replay:
         with open(a.replay) as f:
             body = json.load(f)
+        if body.get('python_flags') == 'O' and not sys.flags.optimize:
+            # found under `python -O` (asserts stripped): replay it the same way
+            os.execve(sys.executable, [sys.executable, '-O', '-m', 'ixv.run'] + sys.argv[1:], dict(os.environ))
         try:
             res = mod.replay(body['sub'], body['case'])
         except Exception:
@@ -301,10 +336,15 @@ def main():
             print(f"HARNESS-ERROR a worker process of the {a.tier} tier died abruptly ({e}); nothing is concluded from this run")
             sys.exit(2)
     merged = _merge(parts)
-    wall = time.time() - t0
     if merged['errors']:
         print("HARNESS-ERROR\n" + "\n".join(merged['errors']))
         sys.exit(2)
+    opt_lines = []
+    if not sys.flags.optimize and not merged['violations'] and os.environ.get('IXV_OPT_PASS', '1') != '0':
+        opt_lines = _optimized_pass(prop, a.tier, merged)
+        if opt_lines is None:
+            sys.exit(2)
+    wall = time.time() - t0
     level = getattr(mod, 'LEVEL', 'exploration')
     try:
         path = core.write_evidence(prop, a.tier, seed, level, merged, wall, strict=not merged['violations'])
@@ -318,6 +358,10 @@ def main():
     print(f"{prop} tier={a.tier} seed={seed} evaluations={merged['evaluations']} "
           f"distinct_nontrivial={merged['distinct_nontrivial']} violations={merged['n_violations']} "
           f"wall={wall:.1f}s evidence={path}")
+    if opt_lines:
+        for line in opt_lines:
+            print(line)
+        sys.exit(1)
     if merged['violations']:
         seen = set()
         for v in merged['violations']:
